@@ -313,7 +313,16 @@ def decide_all(obls, tier, workers=16, log=None, models=True, on_sat=None, stop_
             skipped[0] += 1
             return
         r = None
+        quick_fp = None
         if o["theory"] == "fp" and o.get("smt_real") and on_sat is not None:
+            # most Float32 identities of a correct tree are refuted in well under 3 s; only the stubborn ones get candidates
+            quick_fp = solve_one(o, 3)
+            if quick_fp["verdict"] in ("unsat", "sat"):
+                o.update({"verdict": quick_fp["verdict"], "solver": quick_fp["solver"], "seconds": o.get("seconds", 0) + quick_fp["seconds"], "model": quick_fp["model"], "solver_log": quick_fp["log"]})
+                if o["verdict"] == "sat" and on_sat(o):
+                    confirmed[0] += 1
+                return
+        if quick_fp is not None:
             # candidate counterexample from the real reading of a Float32 identity (confirmed natively or discarded)
             alt = {"smt": o["smt_real"], "vars": o["vars_real"], "theory": "real", "kind": "claim"}
             ex = "".join("(assert (and (<= (- 4.0) %s) (<= %s 4.0)))\n" % (s_, s_) for _, s_ in alt["vars"])
@@ -332,10 +341,29 @@ def decide_all(obls, tier, workers=16, log=None, models=True, on_sat=None, stop_
                     if hit:
                         confirmed[0] += 1
                     return
-                # not reproduced: forget the candidate, decide the Float32 obligation itself
+                # not reproduced: forget the candidate
                 o["verdict"], o["model"] = saved
                 o.pop("reproduced", None)
                 o.pop("replay_out", None)
+            # second candidate source: seeded native assignments (the replay binary tries 40 of them); a Float32 identity
+            # whose real reading is valid typically fails by re-association, which bit-blasting a large DAG cannot find in time
+            saved = (o.get("verdict"), o.get("model"))
+            o["model"] = {}
+            o["verdict"] = "sat"
+            o["solver"] = "native-assignment-search"
+            try:
+                hit = on_sat(o)
+            except Exception as e:
+                hit = False
+                o["replay_error"] = str(e)
+            if o.get("reproduced"):
+                if hit:
+                    confirmed[0] += 1
+                return
+            o["verdict"], o["model"] = saved
+            o["solver"] = None
+            o.pop("reproduced", None)
+            o.pop("replay_out", None)
         if o["verdict"] == "sat":
             ex = margin_extra(o)
             if ex:
